@@ -57,7 +57,8 @@ def main():
             rc, out = sh('/venv/bin/python -m pytest -q -p no:cacheprovider --timeout=900 ' + ' '.join(ids), cwd=wt, timeout=2400)
             m = re.search(r'(\d+) passed', out)
             f = re.search(r'(\d+) failed', out)
-            res['stable_tests'] = dict(passed=int(m.group(1)) if m else 0, failed=int(f.group(1)) if f else 0, wall=round(time.time() - t0))
+            res['stable_tests'] = dict(passed=int(m.group(1)) if m else 0, failed=int(f.group(1)) if f else 0, wall=round(time.time() - t0),
+                                       failed_ids=re.findall(r'^FAILED (\S+)', out, flags=re.M))
         props = a.props or meta.get('property')
         if props == 'all':
             props = ','.join('C%02d' % i for i in range(1, 21))
